@@ -165,6 +165,37 @@ theorem Delim.stops {p : Char → Bool} {rest : List Char} (h : Delim rest)
   · exact hp.2.2.1
   · exact hp.2.2.2
 
+/-- Characters that end a token in any of the three layouts: `, : ) }`, a space, a line feed. -/
+def tokEnd (c : Char) : Bool := c == ',' || c == ':' || c == ')' || c == '}' || c == ' ' || c == '\n'
+
+/-- What may follow a token: nothing, or a `tokEnd` character. -/
+def TokEnd (rest : List Char) : Prop := ∀ c ∈ rest.head?, tokEnd c = true
+
+theorem tokEnd_cases {c : Char} (h : tokEnd c = true) :
+    c = ',' ∨ c = ':' ∨ c = ')' ∨ c = '}' ∨ c = ' ' ∨ c = '\n' := by
+  simp only [tokEnd, Bool.or_eq_true, beq_iff_eq] at h
+  rcases h with ((((h | h) | h) | h) | h) | h <;> simp [h]
+
+theorem TokEnd.nil : TokEnd [] := by intro c hc; simp at hc
+
+theorem Delim.tok {rest : List Char} (h : Delim rest) : TokEnd rest := by
+  intro c hc; rcases h c hc with rfl | rfl | rfl | rfl <;> decide
+
+theorem TokEnd.stops {p : Char → Bool} {rest : List Char} (h : TokEnd rest)
+    (hp : ∀ c, tokEnd c = true → p c = false) : stopsAt p rest := fun c hc => hp c (h c hc)
+
+theorem identChar_tokEnd : ∀ c, tokEnd c = true → isIdentChar c = false := by
+  intro c h; rcases tokEnd_cases h with rfl | rfl | rfl | rfl | rfl | rfl <;> decide
+
+theorem isDigit_tokEnd : ∀ c, tokEnd c = true → isDigit c = false := by
+  intro c h; rcases tokEnd_cases h with rfl | rfl | rfl | rfl | rfl | rfl <;> decide
+
+theorem tokend_cases {rest : List Char} (hd : TokEnd rest) :
+    rest = [] ∨ ∃ c r, rest = c :: r ∧ tokEnd c = true := by
+  cases rest with
+  | nil => exact Or.inl rfl
+  | cons c r => exact Or.inr ⟨c, r, rfl, hd c (by simp)⟩
+
 theorem identChar_delims : isIdentChar ',' = false ∧ isIdentChar ':' = false ∧ isIdentChar ')' = false ∧ isIdentChar '}' = false := by
   decide
 
@@ -179,21 +210,21 @@ theorem lexIdent_append {s rest : List Char} (hs : lexIdent s = some (s, [])) (h
   simp only [List.cons_append, lexIdent, hc, ↓reduceIte]
   rw [takeWhile_append_stop hr hd, dropWhile_append_stop hr hd]
 
-theorem lexPrim_ident {s rest : List Char} (hs : isIdentifier s = true) (hd : Delim rest) :
+theorem lexPrim_ident {s rest : List Char} (hs : isIdentifier s = true) (hd : TokEnd rest) :
     lexPrim (s ++ rest) = some (.ok (.text s, rest)) := by
   obtain ⟨hl, hres⟩ := (quote_decision_agrees s).mp hs
   obtain ⟨c, r, rfl, hc, hr⟩ := (lexIdent_eq_self_iff s).mp hl
   have hq : c ≠ '"' := by intro h; subst h; simp [quote_not_identStart] at hc
-  have := lexIdent_append hl (hd.stops identChar_delims)
+  have := lexIdent_append hl (hd.stops identChar_tokEnd)
   simp only [List.cons_append] at this
   simp only [List.cons_append, lexPrim, hq, ↓reduceIte, hc, this]
   have h1 : (c :: r) ≠ "true".toList := by intro h; apply hres; rw [h]; decide
   have h2 : (c :: r) ≠ "false".toList := by intro h; apply hres; rw [h]; decide
   rw [if_neg h1, if_neg h2]
 
-theorem lexPrim_bool (b : Bool) {rest : List Char} (hd : Delim rest) :
+theorem lexPrim_bool (b : Bool) {rest : List Char} (hd : TokEnd rest) :
     lexPrim ((if b then "true".toList else "false".toList) ++ rest) = some (.ok (.bool b, rest)) := by
-  have hs := hd.stops identChar_delims
+  have hs := hd.stops identChar_tokEnd
   cases b
   · have h : lexIdent ("false".toList ++ rest) = some ("false".toList, rest) := lexIdent_append (by decide) hs
     have h' : lexIdent ('f' :: 'a' :: 'l' :: 's' :: 'e' :: rest) = some ("false".toList, rest) := h
@@ -231,9 +262,9 @@ theorem delim_cases {rest : List Char} (hd : Delim rest) :
 
 /-- `0b…` / `0x…` do not match decimal digits followed by a delimiter. -/
 theorem lexRadixBody_none {ds rest : List Char} (tc tC : Char) (isD : Char → Bool) (radix : Nat) (neg : Bool)
-    (hds : ∀ c ∈ ds, isDigit c = true) (hd : Delim rest)
-    (htc : (tc.toNat < 48 ∨ 57 < tc.toNat) ∧ tc ≠ ',' ∧ tc ≠ ':' ∧ tc ≠ ')' ∧ tc ≠ '}')
-    (htC : (tC.toNat < 48 ∨ 57 < tC.toNat) ∧ tC ≠ ',' ∧ tC ≠ ':' ∧ tC ≠ ')' ∧ tC ≠ '}') :
+    (hds : ∀ c ∈ ds, isDigit c = true) (hd : TokEnd rest)
+    (htc : (tc.toNat < 48 ∨ 57 < tc.toNat) ∧ tokEnd tc = false)
+    (htC : (tC.toNat < 48 ∨ 57 < tC.toNat) ∧ tokEnd tC = false) :
     lexRadixBody tc tC isD radix neg (ds ++ rest) = none := by
   unfold lexRadixBody
   split
@@ -244,8 +275,9 @@ theorem lexRadixBody_none {ds rest : List Char} (tc tC : Char) (isD : Char → B
         -- `rest` starts with `0`: impossible for a delimiter
         simp only [List.nil_append] at heq
         subst heq
-        have := hd '0' (by simp)
-        simp at this
+        have h0 := hd '0' (by simp)
+        have : tokEnd '0' = false := by decide
+        rw [this] at h0; cases h0
       | cons d ds' =>
         simp only [List.cons_append, List.cons.injEq] at heq
         cases ds' with
@@ -253,11 +285,10 @@ theorem lexRadixBody_none {ds rest : List Char} (tc tC : Char) (isD : Char → B
           simp only [List.nil_append] at heq
           have hr := heq.2
           subst hr
-          rcases hd t (by simp) with rfl | rfl | rfl | rfl
-          · exact ⟨fun h => htc.2.1 h.symm, fun h => htC.2.1 h.symm⟩
-          · exact ⟨fun h => htc.2.2.1 h.symm, fun h => htC.2.2.1 h.symm⟩
-          · exact ⟨fun h => htc.2.2.2.1 h.symm, fun h => htC.2.2.2.1 h.symm⟩
-          · exact ⟨fun h => htc.2.2.2.2 h.symm, fun h => htC.2.2.2.2 h.symm⟩
+          have ht := hd t (by simp)
+          constructor
+          · intro h; subst h; rw [htc.2] at ht; cases ht
+          · intro h; subst h; rw [htC.2] at ht; cases ht
         | cons d2 ds'' =>
           simp only [List.cons_append, List.cons.injEq] at heq
           have hd2 : isDigit d2 = true := hds d2 (by simp)
@@ -266,7 +297,7 @@ theorem lexRadixBody_none {ds rest : List Char} (tc tC : Char) (isD : Char → B
     simp [ht.1, ht.2]
   · rfl
 
-theorem lexNumber_nat (neg : Bool) (m : Nat) {rest : List Char} (hd : Delim rest) :
+theorem lexNumber_nat (neg : Bool) (m : Nat) {rest : List Char} (hd : TokEnd rest) :
     lexNumber ((if neg then ['-'] else []) ++ natChars m ++ rest) = some (intValue neg m, rest) := by
   have hds := natChars_digits m
   have hne := natChars_ne_nil m
@@ -294,21 +325,21 @@ theorem lexNumber_nat (neg : Bool) (m : Nat) {rest : List Char} (hd : Delim rest
   unfold lexDecimal
   rw [hss]
   unfold lexDecimalBody
-  have hst := hd.stops isDigit_delims
+  have hst := hd.stops isDigit_tokEnd
   rw [takeWhile_append_stop hds hst, dropWhile_append_stop hds hst]
   cases hn : natChars m with
   | nil => exact absurd hn hne
   | cons d ds =>
     have hv : Nat.ofDigitChars 10 (d :: ds) 0 = m := by rw [← hn]; exact Nat.ofDigitChars_ten_toDigits
-    rcases delim_cases hd with rfl | ⟨c, r, rfl, hc⟩
+    rcases tokend_cases hd with rfl | ⟨c, r, rfl, hc⟩
     · simp [hv]
     · have : ¬(c = '.' ∨ c = 'e' ∨ c = 'E') := by
-        rcases hc with rfl | rfl | rfl | rfl <;> decide
+        rcases tokEnd_cases hc with rfl | rfl | rfl | rfl | rfl | rfl <;> decide
       simp [this, hv]
 
 
 
-theorem lexPrim_int (n : Int) {rest : List Char} (hd : Delim rest) :
+theorem lexPrim_int (n : Int) {rest : List Char} (hd : TokEnd rest) :
     lexPrim (intChars n ++ rest) = some (.ok (.int (classify n) n, rest)) := by
   cases n with
   | ofNat m =>
@@ -430,7 +461,7 @@ theorem lexPrim_quoted {s : List Char} (h : isIdentifier s = false) (rest : List
   simp only [lexPrim, ↓reduceIte, lexString_escape, Res.map]
 
 /-- Every text is lexed back from its literal. -/
-theorem lexPrim_text (s : List Char) {rest : List Char} (hd : Delim rest) :
+theorem lexPrim_text (s : List Char) {rest : List Char} (hd : TokEnd rest) :
     lexPrim (stringLiteral s ++ rest) = some (.ok (.text s, rest)) := by
   cases h : isIdentifier s
   · exact lexPrim_quoted h rest
@@ -444,23 +475,19 @@ theorem lexPrim_text (s : List Char) {rest : List Char} (hd : Delim rest) :
 set_option maxRecDepth 8192 in
 theorem b64_char_val : ∀ n, n < 64 → b64Val? (b64Char n) = some n := by decide
 theorem b64_pad : b64Val? '=' = none := by decide
-theorem b64_delims : b64Val? ',' = none ∧ b64Val? ':' = none ∧ b64Val? ')' = none ∧ b64Val? '}' = none := by decide
+theorem b64_tokEnd : ∀ c, tokEnd c = true → b64Val? c = none := by
+  intro c h; rcases tokEnd_cases h with rfl | rfl | rfl | rfl | rfl | rfl <;> decide
 
-theorem lexB64_stop {fuel : Nat} {rest : List Char} (hd : Delim rest) : lexB64 (fuel + 1) rest = some ([], rest) := by
+theorem lexB64_stop {fuel : Nat} {rest : List Char} (hd : TokEnd rest) : lexB64 (fuel + 1) rest = some ([], rest) := by
   rw [lexB64.eq_def]
   simp only
   split
   · rename_i a b c d r
-    have ha : b64Val? a = none := by
-      rcases hd a (by simp) with rfl | rfl | rfl | rfl
-      · exact b64_delims.1
-      · exact b64_delims.2.1
-      · exact b64_delims.2.2.1
-      · exact b64_delims.2.2.2
+    have ha : b64Val? a = none := b64_tokEnd a (hd a (by simp))
     simp [ha]
   · rfl
 
-theorem lexB64_encode (bs : List Nat) (hb : ∀ b ∈ bs, b < 256) {rest : List Char} (hd : Delim rest) :
+theorem lexB64_encode (bs : List Nat) (hb : ∀ b ∈ bs, b < 256) {rest : List Char} (hd : TokEnd rest) :
     ∀ fuel, bs.length < fuel → lexB64 fuel (b64Encode bs ++ rest) = some (bs, rest) := by
   fun_induction b64Encode bs with
   | case1 =>
@@ -514,7 +541,7 @@ theorem lexB64_encode (bs : List Nat) (hb : ∀ b ∈ bs, b < 256) {rest : List 
 theorem b64Encode_length (bs : List Nat) : bs.length ≤ (b64Encode bs).length := by
   fun_induction b64Encode bs <;> simp <;> omega
 
-theorem lexPrim_data (bs : List Nat) (hb : ∀ b ∈ bs, b < 256) {rest : List Char} (hd : Delim rest) :
+theorem lexPrim_data (bs : List Nat) (hb : ∀ b ∈ bs, b < 256) {rest : List Char} (hd : TokEnd rest) :
     lexPrim ('%' :: (b64Encode bs ++ rest)) = some (.ok (.data bs, rest)) := by
   have h := lexB64_encode bs hb hd ((b64Encode bs).length + rest.length + 1)
     (by have := b64Encode_length bs; omega)
